@@ -18,3 +18,4 @@ def check(rep, tier):
     rep.run(_rs.run_linalg, rep, tier)      # E3 over autograd/numpy/linalg.py: symbolic matrix and batch sizes
     rep.run(_rs.run_adjoint_helpers, rep, tier)     # E3: second-order rules of dot / tensordot (the adjoint helpers' own VJPs), symbolic sizes
     rep.run(_rs.run_fft, rep, tier)         # E3 over autograd/numpy/fft.py: symbolic array sizes and transform lengths
+    rep.run(_rs.run_scipy_special, rep, tier)   # E3 over autograd/scipy/special.py: broadcasting argument patterns, logsumexp axis forms
